@@ -128,7 +128,7 @@ class JoinGen:
         return env, ops, using
 
     # ------------------------------------------------------------------ body
-    def body(self, comps, must_resolve=True):
+    def body(self, comps, must_resolve=True, apply_aliases=None):
         """comps: [(virtual name, type, role)] -> (vtl_text, sx, clause kinds, final comps)."""
         r = self.r
         sx = '(ds %s)' % name_sx(JNAME)
@@ -143,7 +143,29 @@ class JoinGen:
             parts.append('filter %s' % c[0])
             sx = '(filter %s %s)' % (sx, c[1])
             kinds.append('filter')
-        if r.random() < 0.4:
+        did_apply = False
+        if apply_aliases and r.random() < 0.3:
+            # `apply a1 op a2`: op on every pair of measures with the same name; only those measures are kept.
+            # The model side is the equivalent calc + keep.
+            a1, a2 = apply_aliases
+            names_now = {n for n, _, _ in cur}
+            commons = []
+            for n, t, ro in cur:
+                if ro == 'M' and n.startswith(a1 + '#'):
+                    base = n.split('#', 1)[1]
+                    if '%s#%s' % (a2, base) in names_now:
+                        commons.append((base, t))
+            types = {t for _, t in commons}
+            if commons and (types <= {'Integer', 'Number'} or types == {'String'}):
+                op = ('||', 'concat') if types == {'String'} else r.choice([('+', 'add'), ('-', 'sub'), ('*', 'mul')])
+                parts.append('apply %s %s %s' % (a1, op[0], a2))
+                items = ' '.join('(%s (bin %s (col %s) (col %s)))' % (name_sx(b), op[1], name_sx('%s#%s' % (a1, b)), name_sx('%s#%s' % (a2, b)))
+                                 for b, _ in commons)
+                sx = '(keep (calc %s (%s)) (%s))' % (sx, items, ' '.join(name_sx(b) for b, _ in commons))
+                cur = [c for c in cur if c[2] == 'I'] + [(b, t, 'M') for b, t in commons]
+                kinds.append('apply')
+                did_apply = True
+        if not did_apply and r.random() < 0.4:
             items, names = [], []
             for _ in range(r.choice([1, 1, 2])):
                 t = r.choice(['Integer', 'Number', 'String', 'Boolean'])
@@ -289,7 +311,8 @@ class JoinGen:
                 if m[c] not in seen:
                     seen.add(m[c])
                     comps.append((m[c], t, 'M'))
-        btxt, bsx, bkinds, final = self.body(comps, must_resolve=must_resolve)
+        btxt, bsx, bkinds, final = self.body(comps, must_resolve=must_resolve,
+                                             apply_aliases=[a for a, _ in opl] if n == 2 and kind != 'cross' else None)
         optxt = ', '.join('%s as %s' % (opexpr[k][0] if k in opexpr else name, al) if al else name for k, (al, name) in enumerate(ops))
         utxt = (' using ' + ', '.join(using)) if using else ''
         vtl = 'DS_r <- %s_join(%s%s%s);' % (kind, optxt, utxt, (' ' + btxt) if btxt else '')
